@@ -33,6 +33,26 @@ let parse_op s : (z, z) op =
   | 'z' -> TResize (nat_of_int (int_of_string rest))
   | 'c' | 'a' -> TSelfCopy
   | _ -> failwith ("bad op " ^ s)
+(* operations whose arguments are read from the table itself (the harness passes pointers into the
+   slot array; in the model arguments are values, so they are plain compositions):
+     S<k>,<k2>  set k (get k2)      K<k>,<v>  set k v (key object taken from the iteration)
+     X<k>,<k2>  set (get k) (get k2)     G<k> get (get k)    M<k> mem (get k)    R<k> rem (get k)
+   a failing inner get gives its KeyError as the outcome and changes nothing *)
+let run_op (step : 'st -> (z, z) op -> 'st * z out) (st : 'st) (s : string) : 'st * z out =
+  let rest = String.sub s 1 (String.length s - 1) in
+  let two () = match String.split_on_char ',' rest with
+    | [a; b] -> (z_of_dec a, z_of_dec b) | _ -> failwith "bad pair" in
+  let via k f = match step st (TGet k) with
+    | (_, OVal v) -> f v
+    | (_, o) -> (st, o) in
+  match s.[0] with
+  | 'S' -> let (k, k2) = two () in via k2 (fun v -> step st (TSet (k, v)))
+  | 'K' -> let (k, v) = two () in step st (TSet (k, v))
+  | 'X' -> let (k, k2) = two () in via k (fun kk -> via k2 (fun v -> step st (TSet (kk, v))))
+  | 'G' -> via (z_of_dec rest) (fun kk -> step st (TGet kk))
+  | 'M' -> via (z_of_dec rest) (fun kk -> step st (TMem kk))
+  | 'R' -> via (z_of_dec rest) (fun kk -> step st (TRem kk))
+  | _ -> step st (parse_op s)
 let kv_s (k, v) = z_to_dec k ^ ":" ^ z_to_dec v
 (* typed cases  t<ksize>.<vsize>;<hashspec> : element sizes (0 = builtin Int, 8 bytes); the model
    adds the slot layout  L<step minus headers>.<reserved key bytes>.<reserved value bytes> *)
@@ -78,13 +98,13 @@ let () =
         let t0 = match zt_new hash init with Some t -> t | None -> zt_empty in
         Buffer.add_string buf ("new;" ^ dump_model t0);
         let _ = List.fold_left (fun t o ->
-          let (t', out) = zt_step hash t (parse_op o) in
+          let (t', out) = run_op (zt_step hash) t o in
           Buffer.add_string buf (" | " ^ out_s out ^ ";" ^ dump_model t'); t') t0 ops in ()
       end else begin
         let m0 = List.fold_left (fun m (k, v) -> fst (zs_step m (TSet (k, v)))) [] init in
         Buffer.add_string buf ("new;" ^ dump_spec m0);
         let _ = List.fold_left (fun m o ->
-          let (m', out) = zs_step m (parse_op o) in
+          let (m', out) = run_op zs_step m o in
           Buffer.add_string buf (" | " ^ out_s out ^ ";" ^ dump_spec m'); m') m0 ops in ()
       end;
       print_endline (Buffer.contents buf)
